@@ -92,7 +92,7 @@ class Shard:
         self.frm = None
         self.done = False
         self.proc = None
-        self.hang_s = part.get('hang_s', 60)     # wall-clock watchdog on one case; generous so that a loaded machine is not mistaken for a hang
+        self.hang_s = part.get('hang_s', 180)    # wall-clock watchdog on one case; generous so that a loaded machine is not mistaken for a hang
         self.inproc = bool(part.get('inproc'))      # schedule search without a process per execution (engines/sched/explore.hpp)
         self.forkfrom = None
 
